@@ -7,7 +7,7 @@ ROOT = os.path.dirname(os.path.dirname(os.path.abspath(__file__)))
 sys.path.insert(0, ROOT)
 from harness import core
 core.import_gcmpy()
-from harness.drivers import c20, stub, c01, c04, c05, c09, c10, c13, rewire, c17, perc
+from harness.drivers import c20, stub, c01, c04, c05, c09, c10, c13, rewire, c17, perc, loop
 
 def expect(chk, module, cfg, good, bad, label, env=None):
     vs = chk.judge(module, cfg, [good, bad], label=label, env=env, count_traces=False)
@@ -54,7 +54,8 @@ res.append(expect(chk, "MixingTrace", "MixingTrace.cfg", t, b, "C13 +1 in one ma
 t = rewire.execute({"edges": es, "jd": jd, "tops": tops, "target": rewire.make_target(__import__("random").Random(1), es, jd, tops, "uniform"),
                     "limit": 1, "search": -1, "rng": ("seed", 2), "wrap": False})
 b = copy.deepcopy(t); b["gout"][0][1] = (b["gout"][0][1] + 1) % 8 if (b["gout"][0][1] + 1) % 8 != b["gout"][0][0] else (b["gout"][0][1] + 2) % 8
-res.append(expect(chk, "RewiringTrace", "RewiringTrace.cfg", dict(t, gout=t["g0"]), b, "C11 move one end of one edge", {"PROPERTY": "C11"}))
+b["gout_again"] = b["gout"]
+res.append(expect(chk, "RewiringTrace", "RewiringTrace.cfg", dict(t, gout=t["g0"], gout_again=t["g0"]), b, "C11 move one end of one edge", {"PROPERTY": "C11"}))
 # C17: one read too many in one update
 t = c17.run_once({"motifs": [(10, [0, 1, 2], [(0, 1), (0, 2), (1, 2)]), (11, [0, 3], [(0, 3)]), (12, [1, 4], [(1, 4)])], "phi": 1, "iterations": 1})
 b = copy.deepcopy(t)
@@ -65,6 +66,13 @@ g = perc.connected_atlas(4)[5]
 t = perc.run_auto({"V": list(g.nodes()), "E": [list(e) for e in g.edges()], "root": 0, "name": "x"})
 b = copy.deepcopy(t); b["terms"][0]["c"] += 1
 res.append(expect(chk, "PercolationTrace", "PercolationTrace.cfg", t, b, "C15 +1 in one coefficient"))
+# LOOP (RewireLoop): drop one event / flip one suitability answer of a recorded control-flow trace
+t = loop.execute({"edges": es, "jd": jd, "tops": tops, "target": rewire.make_target(__import__("random").Random(1), es, jd, tops, "uniform"),
+                  "limit": 1, "search": 3, "seed": 4})
+b = copy.deepcopy(t); i = next(i for i, e in enumerate(b["events"]) if e["ev"] == "corner"); del b["events"][i]
+res.append(expect(chk, "RewireLoopTrace", "RewireLoopTrace.cfg", t, b, "LOOP drop one corner event"))
+b = copy.deepcopy(t); e = next(e for e in b["events"] if e["ev"] == "suitable"); e["r"] = not e["r"]
+res.append(expect(chk, "RewireLoopTrace", "RewireLoopTrace.cfg", t, b, "LOOP flip one suitability answer"))
 chk.abort()
 print("%d/%d bindings demonstrated" % (sum(res), len(res)))
 sys.exit(0 if all(res) else 1)
